@@ -25,7 +25,7 @@ def gen(c, chunkings):
         kw["_what"] = what
         kw["_base"] = base
         out.append(kw)
-    lens = [0, 1, 16, 33] if c.quick else [0, 1, 15, 16, 17, 64, 255]
+    lens = [0, 1, 16, 33, 100] if c.quick else [0, 1, 15, 16, 17, 64, 100, 255]
     for f, cipher, api in SCHEMES:
         for ml in lens:
             taglens = [16, 12] if f == "gcm_dec" else ([16, 4, 10] if f == "ccm_dec" else [32])
@@ -50,14 +50,14 @@ def gen(c, chunkings):
                     body = K.ctr_hmac_enc(T, p["key"], p["mackey"], p["iv"], p["aad"], m)
                 base = "%s:%s:%s:len%d:tag%d" % (f, cipher, api, ml, tl)
 
-                def case(what, iv=None, aad=None, b=None, touched=1):
+                def case(what, iv=None, aad=None, b=None, touched=1, ch=None):
                     q = dict(p)
                     q["iv"] = p["iv"] if iv is None else iv
                     q["aad"] = p["aad"] if aad is None else aad
                     bb = body if b is None else b
                     kw = {k: (CL.hx(v) if isinstance(v, (bytes, bytearray)) else v) for k, v in q.items()}
                     if api == "stream":
-                        ch = CL.scale(rng.choice(chunkings), 16)
+                        ch = ch or CL.scale(rng.choice(chunkings), 16)
                         cuts, acc = [], 0
                         for r in ch:
                             r = min(r, len(bb) - acc)
@@ -66,6 +66,19 @@ def gen(c, chunkings):
                         kw["chunks"] = ",".join(map(str, cuts))
                     add(what, base, f=f, api=api, msg=CL.hx(bb), touched=touched, **kw)
                 case("untouched", touched=0)
+                if api == "stream":
+                    # the genuine tuple is accepted in every chunking TLC enumerates, at three scales: pieces below, at and above the held-back tag size
+                    seen = set()
+                    for unit in (5, 16, 40):
+                        for chk in chunkings:
+                            ch, acc = [], 0
+                            for r in CL.scale(chk, unit):           # as the driver will cut the body
+                                r = min(r, len(body) - acc); acc += r
+                                if r or not ch or ch[-1]:
+                                    ch.append(r)
+                            if tuple(ch) not in seen:
+                                seen.add(tuple(ch))
+                                case("untouched:chunks=%s" % ",".join(map(str, ch)), touched=0, ch=list(ch))
                 # the complete single-bit-flip neighbourhood (quick: every bit of nonce, AAD, tag and of up to 24 body bytes)
                 for i in range(len(p["iv"]) * 8):
                     x = bytearray(p["iv"]); x[i // 8] ^= 1 << (i % 8)
